@@ -288,6 +288,21 @@ func TestC14Rapid(t *testing.T) {
 				usedOCI = o
 				last = fmt.Sprintf("inject %v (%s)", req, outcome)
 			},
+			"injectWithAnUnresolvableName": func(t *rapid.T) {
+				// a request that fails (one name does not resolve) must leave no trace: the injections after it are
+				// judged like all others
+				perm := rapid.Permutation(allNames).Draw(t, "order")
+				req := append([]string{}, perm[:rapid.IntRange(1, len(perm)).Draw(t, "nReq")]...)
+				at := rapid.IntRange(0, len(req)).Draw(t, "missAt")
+				req = append(req[:at], append([]string{"no.such/device=x"}, req[at:]...)...)
+				o := gen.OCISpec(t, "oci", gen.OCIOpts{})
+				before := gen.OCIImage(o)
+				unres, err := cache.InjectDevices(o, req...)
+				if err == nil || len(unres) != 1 || gen.OCIImage(o) != before {
+					fail(fmt.Sprintf("request %v with one unresolvable name: unresolved %v, error %v, OCI spec changed: %v", req, unres, err, gen.OCIImage(o) != before))
+				}
+				last = fmt.Sprintf("injectWithAnUnresolvableName %v", req)
+			},
 			"injectIntoTheSameOCISpecAgain": func(t *rapid.T) {
 				// a second round of injection for the same container: the OCI spec object already carries what an
 				// earlier injection put there (sections of it may be shared with the cache if the library hands out pointers)
